@@ -18,11 +18,15 @@ pub struct Cb {
     pub all: Vec<String>,
     /// file sizes under `src` at the `:pre` label that directly precedes the target `:post`
     pub pre_sizes: Vec<(PathBuf, u64)>,
+    /// when set: at every `persist.meta.rename:post` the most recently modified `*.json` of this directory is
+    /// recorded (the shard whose metadata was just renamed into place — the observable order of multi-shard loops)
+    pub order_dir: Option<PathBuf>,
+    pub order: Vec<String>,
 }
 
 impl Cb {
     pub fn new(prefixes: Vec<&'static str>, src: &Path, dst: &Path, target: usize) -> Cb {
-        Cb { prefixes, src: src.to_path_buf(), dst: dst.to_path_buf(), target, count: 0, hit_label: None, labels: vec![], all: vec![], pre_sizes: vec![] }
+        Cb { prefixes, src: src.to_path_buf(), dst: dst.to_path_buf(), target, count: 0, hit_label: None, labels: vec![], all: vec![], pre_sizes: vec![], order_dir: None, order: vec![] }
     }
 }
 
@@ -49,6 +53,21 @@ fn on_label(label: &str) {
     }
     cb.count += 1;
     cb.labels.push(base.to_string());
+    if base == "persist.meta.rename" {
+        if let Some(dir) = &cb.order_dir {
+            let mut best: Option<(std::time::SystemTime, String)> = None;
+            if let Ok(rd) = std::fs::read_dir(dir) {
+                for e in rd.flatten() {
+                    let p = e.path();
+                    if p.extension().and_then(|x| x.to_str()) != Some("json") { continue; }
+                    if let (Ok(m), Some(stem)) = (e.metadata().and_then(|m| m.modified()), p.file_stem().and_then(|x| x.to_str())) {
+                        if best.as_ref().map_or(true, |(t, _)| m > *t) { best = Some((m, stem.to_string())); }
+                    }
+                }
+            }
+            if let Some((_, n)) = best { cb.order.push(n); }
+        }
+    }
     if cb.count == cb.target {
         mark("harness:pre");
         let _ = std::fs::remove_dir_all(&cb.dst);
